@@ -136,6 +136,13 @@ Section Oracles.
   Variable comp : wire -> wire.                  (* zstd EncodeAll *)
   Variable decomp : wire -> option wire.         (* decompressZstdCapped *)
   Variable sha : wire -> bytes.                  (* hex(sha256(.)) *)
+  (* checkIPCStreamFraming (ipc_guard.go): every message the bytes declare fits in the bytes.
+     Walking 8-byte prefixes (continuation marker, int32 metadata length) from offset 0, it
+     refuses a metadata or body length larger than what remains, stops at the end-of-stream
+     marker (anything after it is ignored) and accepts data that runs out INSIDE a prefix:
+     a download cut exactly at a message boundary, or 1..7 bytes into the next prefix, still
+     passes (no EOS needed); a cut inside a message's metadata or body does not. *)
+  Variable framed : wire -> bool.
 
   Record ext_out := {
     x_batch : batch; x_meta : meta; x_err : bool;
@@ -194,6 +201,7 @@ Section Oracles.
                       | None => RErr EFetch
                       | Some w =>
                           if negb (sha_ok m w) then RErr ESha
+                          else if negb (framed w) then RErr EParse
                           else match dec w with
                                | None => RErr EParse
                                | Some bs =>
@@ -216,18 +224,22 @@ Arguments Build_served {wire}.
 Inductive swire :=
 | SIpc (bs : list batch)                        (* the IPC stream of these batches *)
 | SZ (w : swire)                                (* zstd frame of w *)
-| SOther (tag : N) (d : option (list batch)).   (* any other byte string: what arrow reads from it *)
+| SOther (tag : N) (f : bool) (d : option (list batch)).
+    (* any other byte string: does it pass the framing guard, what arrow reads from it *)
 
 Fixpoint swire_eqb (a b : swire) : bool :=
   match a, b with
   | SIpc x, SIpc y => list_eqb batch_eqb x y
   | SZ x, SZ y => swire_eqb x y
-  | SOther t d, SOther t' d' => (t =? t') && opt_eqb (list_eqb batch_eqb) d d'
+  | SOther t f d, SOther t' f' d' => (t =? t') && Bool.eqb f f' && opt_eqb (list_eqb batch_eqb) d d'
   | _, _ => false
   end.
 
 Definition sdec (w : swire) : option (list batch) :=
-  match w with SIpc bs => Some bs | SZ _ => None | SOther _ d => d end.
+  match w with SIpc bs => Some bs | SZ _ => None | SOther _ _ d => d end.
+(* a zstd frame starts with the magic 28 B5 2F FD: a negative metadata length *)
+Definition sframed (w : swire) : bool :=
+  match w with SIpc _ => true | SZ _ => false | SOther _ f _ => f end.
 Definition sdecomp (w : swire) : option swire :=
   match w with SZ x => Some x | _ => None end.
 
@@ -240,7 +252,7 @@ Fixpoint ssha (t : shatbl) (w : swire) : bytes :=
 
 Definition sexternalize_by (carry : bool) (t : shatbl) := externalize_by swire SIpc SZ (ssha t) carry.
 Definition sexternalize (t : shatbl) := sexternalize_by true t.
-Definition sresolve (t : shatbl) := resolve swire sdec sdecomp (ssha t).
+Definition sresolve (t : shatbl) := resolve swire sdec sdecomp (ssha t) sframed.
 Definition sfetch := fetch swire sdecomp.
 
 (* ---- correspondence interface ---------------------------------------------- *)
@@ -322,7 +334,8 @@ Definition nonempty {A} (l : list A) : bool := match l with [] => false | _ => t
 
 (* what a successful resolution must look like, given the pointer metadata it was asked
    to resolve and the origin: the download (content-decoded) matches the checksum when one
-   is given, decodes to a stream without pointers, and the result is a DATA batch of it *)
+   is given, is well framed, decodes to a stream without pointers, and the result is a DATA
+   batch of it.  (A refusal is always acceptable for a tampered or truncated object.) *)
 Definition ok_is_sound (t : shatbl) (m : meta) (srv : option (served swire)) (r : batch) : bool :=
   match mget m c30_k_location with
   | None => false
@@ -330,7 +343,7 @@ Definition ok_is_sound (t : shatbl) (m : meta) (srv : option (served swire)) (r 
       match sfetch srv u with
       | None => false
       | Some w =>
-          sha_ok swire (ssha t) m w &&
+          sha_ok swire (ssha t) m w && sframed w &&
           match sdec w with
           | None => false
           | Some bs => existsb (batch_eqb r) bs && is_data r && negb (mhas (b_meta r) c30_k_log_level)
@@ -339,7 +352,8 @@ Definition ok_is_sound (t : shatbl) (m : meta) (srv : option (served swire)) (r 
       end
   end.
 
-(* an honest origin: pointer accepted, download intact, stream = logs + exactly one data batch *)
+(* an honest origin: pointer accepted, the download IS an intact IPC stream (not merely bytes
+   arrow can read something from), stream = logs + exactly one data batch *)
 Definition honest (t : shatbl) (c : option cfg) (rows : N) (m : meta) (srv : option (served swire))
   : option batch :=
   match c with
@@ -352,11 +366,11 @@ Definition honest (t : shatbl) (c : option cfg) (rows : N) (m : meta) (srv : opt
               match sfetch srv (x :: u) with
               | Some w =>
                   if sha_ok swire (ssha t) m w then
-                    match sdec w with
-                    | Some bs =>
+                    match w with
+                    | SIpc bs =>
                         if existsb is_ptr bs then None
                         else match filter is_data bs with [d] => Some d | _ => None end
-                    | None => None
+                    | _ => None
                     end
                   else None
               | None => None
